@@ -29,6 +29,10 @@ type c17Case struct {
 	TV
 	Msg    []byte       `json:"msg"`
 	Before [][]legacyOp `json:"legacy"` // legacy calls placed before size, encode, decode, and after
+	// Cluster: Pretouch a member of a not-yet-used recursive cluster with an invalid member,
+	// then the C13 history over that cluster must still see every member rejected
+	Cluster    *c13Case `json:"cluster,omitempty"`
+	TouchFirst []int    `json:"touch,omitempty"` // members pretouched first (0..6), form = index%3
 }
 
 var boundaryInts = []int{0, -1, 1, 2, math.MaxInt, math.MinInt, 256, 50000}
@@ -57,6 +61,16 @@ func genC17(t *rapid.T) c17Case {
 	c.Msg, _ = genWireMsg(t, c.S, v2, fullEdit)
 	for i := 0; i < 4; i++ {
 		c.Before = append(c.Before, genLegacy(t))
+	}
+	if rapid.IntRange(0, 9).Draw(t, "withcluster") == 0 {
+		cc := c13Case{Cluster: true}
+		n := rapid.IntRange(2, 6).Draw(t, "ncops")
+		for i := 0; i < n; i++ {
+			cc.COps = append(cc.COps, c13COp{Op: rapid.SampledFrom([]string{"size", "encode", "decode"}).Draw(t, "cop"),
+				Member: rapid.IntRange(0, 6).Draw(t, "member"), BV: rapid.Bool().Draw(t, "cbv")})
+		}
+		c.Cluster = &cc
+		c.TouchFirst = rapid.SliceOfN(rapid.IntRange(0, 20), 1, 3).Draw(t, "touch")
 	}
 	return c
 }
@@ -189,6 +203,34 @@ func runC17(w *worker) func(c c17Case) *Failure {
 		}
 		if ok, _, _ := matchesRef(out2, c.S, c.V); !ok {
 			return failf("encoding-differs", "after legacy calls the output differs from the reference encoding")
+		}
+		if c.Cluster != nil && !control && c13NextCluster < len(invClusters) {
+			types := invClusters[c13NextCluster]
+			for _, m := range c.TouchFirst {
+				rt := types[m%7]
+				var arg interface{}
+				switch m % 3 {
+				case 0:
+					arg = reflect.New(rt).Interface()
+				case 1:
+					arg = rt
+				default:
+					arg = reflect.New(rt).Elem().Interface()
+				}
+				var err error
+				if f := safely("Pretouch", func() { err = frugal.Pretouch(arg) }); f != nil {
+					return f
+				}
+				if err != nil {
+					return failf("pretouch-error", "Pretouch(%s) returned %v", rt, err)
+				}
+			}
+			// Pretouch must not have changed what the codec accepts
+			if f := runC13Cluster(&worker{hashes: map[uint64]struct{}{}, classes: map[string]int{}, excl: map[string]int{}}, *c.Cluster); f != nil {
+				f.Msg = "after Pretouch on members of the cluster: " + f.Msg
+				return f
+			}
+			w.label("pretouch-then-invalid-cluster")
 		}
 		nl := 0
 		for _, l := range c.Before {
